@@ -59,7 +59,7 @@ STEPS = ["connect-error", "reset", "503", "307", "308", "303", "301"]
 # quick: two body-less-class methods, POST (the one method a 301 may rewrite), and an unknown method
 # (takes the same code paths as PUT/PATCH: expects a body, never rewritten)
 METHODS_QUICK = ["GET", "DELETE", "POST", "QUERY"]
-METHODS_THOROUGH = ["GET", "HEAD", "DELETE", "OPTIONS", "POST", "PUT", "PATCH", "QUERY"]
+METHODS_THOROUGH = ["GET", "HEAD", "DELETE", "OPTIONS", "POST", "PUT", "PATCH", "QUERY", "get"]
 HDRS = ["none", "cl", "te"]
 # RFC 9110 9.3: methods for which a body-less request carries no framing at all
 NOBODY = {"GET", "HEAD", "DELETE", "OPTIONS", "TRACE", "CONNECT"}
@@ -481,6 +481,12 @@ def check(case, obs, ref):
                 either += 1
                 ok = (nte == 1 and ncl == 0) or (nte == 0 and ((ncl == 0) if m in NOBODY else w["cl"] == ["0"]))
                 want = "a single consistent framing of an empty body"
+            elif m not in NOBODY and m.upper() in NOBODY:
+                # "get" handed straight to urlopen(): method tokens are case-sensitive, so this is either a GET-like
+                # request (unframed) or some other method (Content-Length: 0) - the statement fits both readings
+                either += 1
+                ok = nte == 0 and (ncl == 0 or w["cl"] == ["0"])
+                want = "no framing header, or Content-Length: 0"
             elif m in NOBODY:
                 want = "no framing header"
                 ok = ncl == 0 and nte == 0
